@@ -96,3 +96,55 @@ func LoopProgram(r R, g *model.GraphData) (prog []*gripql.GraphStatement, family
 	}
 	return prog, family
 }
+
+// LoopVolume draws a graph and a counter-bounded loop in which every pass
+// holds more travelers (1 100 - 2 600) than any fixed capacity of the cycle is
+// likely to be: the property holds "regardless of the number of travelers in
+// flight". The cycle is jump -> queue -> mark -> body -> jump; a bound anywhere
+// in it deadlocks once a pass no longer fits. The graph is a star whose W
+// leaves each start a chain, so that every pass re-enters W travelers.
+func LoopVolume(r R) (*model.GraphData, []*gripql.GraphStatement, string) {
+	W := []int{1100, 1500, 2600}[r.Intn(3)]
+	depth := 2 + r.Intn(2)
+	g := &model.GraphData{}
+	g.V = append(g.V, &model.Vertex{ID: "v0", Label: "A"})
+	k := 0
+	for i := 0; i < W; i++ {
+		prev := "v0"
+		for l := 0; l <= depth; l++ {
+			id := fmtID("c", l) + fmtID("_", i)
+			g.V = append(g.V, &model.Vertex{ID: id, Label: "B"})
+			g.E = append(g.E, &model.Edge{ID: fmtID("e", k), Label: "k", From: prev, To: id})
+			k++
+			prev = id
+		}
+	}
+	lt := gripql.Lt("$s.c", float64(depth))
+	emit := r.Chance(70)
+	prog := []*gripql.GraphStatement{V("v0"), SetStmt("c", 0.0), As("s"), Mark("a"), Out(), Increment("$s.c", 1)}
+	family := "volume-conditional-jump"
+	if r.Chance(50) {
+		family = "volume-counter-after-body"
+		prog = append(prog, Has(lt), Jump("a", nil, emit))
+	} else {
+		prog = append(prog, Jump("a", lt, emit))
+	}
+	if !emit {
+		family += "-no-emit"
+	}
+	return g, prog, family
+}
+
+func fmtID(p string, i int) string { return p + itoa(i) }
+
+func itoa(i int) string {
+	if i == 0 {
+		return "0"
+	}
+	s := ""
+	for i > 0 {
+		s = string(rune('0'+i%10)) + s
+		i /= 10
+	}
+	return s
+}
